@@ -118,6 +118,7 @@ def handle (j : Json) : P Json := do
       | "hmac_del" => pure (Cache.Step.tamper (.delCell hk))
       | "hmac_garbage" => pure (Cache.Step.tamper (.setCell hk (.str "garbage")))
       | "hmac_type" => pure (Cache.Step.tamper (.setCell hk .other))
+      | "hmac_nonascii" => pure (Cache.Step.tamper (.setCell hk (.str "non-ascii")))
       | s => throw s!"bad disk step {s}") (← field j "steps")
     pure (Json.mkObj [("gets", .arr ((Cache.diskScenario steps).map fun g => Json.mkObj [
       ("hit", match g.hit with | some v => encVal v | none => Json.mkObj [("miss", .num 1)]),
